@@ -12,6 +12,7 @@ import (
 	"github.com/smart-core-os/sc-api/go/traits"
 	"github.com/smart-core-os/sc-api/go/types"
 
+	"github.com/smart-core-os/sc-golang/pkg/masks"
 	"github.com/smart-core-os/sc-golang/pkg/resource"
 )
 
@@ -109,7 +110,7 @@ func (s *ModelServer) ListModes(_ context.Context, request *traits.ListModesRequ
 	}
 	pageSize := capPageSize(int(request.GetPageSize()))
 
-	sortedModes := s.model.Modes(resource.WithReadMask(request.ReadMask))
+	sortedModes := s.model.Modes()
 	nextIndex := 0
 	if lastKey != "" {
 		nextIndex = sort.Search(len(sortedModes), func(i int) bool {
@@ -135,7 +136,14 @@ func (s *ModelServer) ListModes(_ context.Context, request *traits.ListModesRequ
 	if err != nil {
 		return nil, err
 	}
-	result.Modes = sortedModes[nextIndex:upperBound]
+	// the read mask is applied to the page only: the key that the page token and the search rely on has to be read from
+	// the complete items, otherwise a mask that leaves the key out yields the same token for ever
+	filter := masks.NewResponseFilter(masks.WithFieldMask(request.ReadMask))
+	page := sortedModes[nextIndex:upperBound]
+	result.Modes = make([]*traits.ElectricMode, len(page))
+	for i, item := range page {
+		result.Modes[i] = filter.FilterClone(item).(*traits.ElectricMode)
+	}
 	return result, nil
 }
 
